@@ -41,6 +41,7 @@ struct Fault {
 	std::string call;  // spawn pipe fcntl fa_init fa_adddup2 mkstemp alloc
 	int index = 0;     // n-th call of that kind made by the driver
 	int err = 0;
+	bool persistent = false;  // every call from the n-th on fails (a full process table does not empty because one asks again)
 };
 
 struct Scenario {
@@ -55,6 +56,8 @@ struct Scenario {
 	bool stdin_closed = false;      // the driver is started without descriptor 0 (cproc ... <&-)
 	bool sigchld_ignored = false;   // the driver inherits SIGCHLD = SIG_IGN: the kernel reaps children itself, wait() ends with ECHILD
 	int sigterm_inherited = 0;      // 1: the driver inherits SIGTERM = SIG_IGN (trap '' TERM; cproc ...), 2: SIGTERM blocked in the inherited mask
+	bool output_symlink = false;    // every output name of the command line exists beforehand as a symbolic link (out.o -> elsewhere/out.o)
+	std::vector<std::string> path_decoys;  // tool names for which an earlier PATH entry holds a directory of that name
 	bool stdin_stays_open = false;  // standard input is a terminal nobody types on: after stdin_units a read blocks for ever instead of seeing EOF
 	int stray_exit_step = -1;                 // -1: no stray child
 	int stray_status = 0;
